@@ -83,6 +83,8 @@ type Term struct {
 func (t *Term) IsConst() bool { return t.Op == OConst }
 
 // Builder owns the hash-cons table.
+const smallN = 1 << 16
+
 type Builder struct {
 	tab    map[string]*Term
 	nextID int
@@ -90,6 +92,7 @@ type Builder struct {
 	True   *Term
 	False  *Term
 	fresh  int
+	small  [smallN + 256]*Term
 	Apps   map[string]string // app name -> declaration "(declare-fun name (Int) Real)"
 }
 
@@ -171,10 +174,28 @@ var (
 )
 
 func (b *Builder) Int(v *big.Int) *Term {
+	if v.IsInt64() {
+		if x := v.Int64(); x >= -256 && x < smallN {
+			if t := b.small[x+256]; t != nil {
+				return t
+			}
+			c := new(big.Int).Set(v)
+			t := b.mk(&Term{Op: OConst, Sort: SInt, I: c, Lo: c, Hi: c})
+			b.small[x+256] = t
+			return t
+		}
+	}
 	c := new(big.Int).Set(v)
 	return b.mk(&Term{Op: OConst, Sort: SInt, I: c, Lo: c, Hi: c})
 }
-func (b *Builder) Int64(v int64) *Term   { return b.Int(big.NewInt(v)) }
+func (b *Builder) Int64(v int64) *Term {
+	if v >= -256 && v < smallN {
+		if t := b.small[v+256]; t != nil {
+			return t
+		}
+	}
+	return b.Int(big.NewInt(v))
+}
 func (b *Builder) Uint64(v uint64) *Term { return b.Int(new(big.Int).SetUint64(v)) }
 func (b *Builder) Bool(v bool) *Term {
 	if v {
